@@ -78,10 +78,16 @@ func (r *getRequest) reply() {
 
 func (r *getRequest) executeHandler() {
 	// Recover from panics inside handlers
+	returned := false
 	defer func() {
 		v := recover()
 		if v == nil {
-			return
+			if returned {
+				return
+			}
+			// A panic(nil), for which recover returns nil unless the program
+			// is built with go1.21 semantics or later.
+			v = errors.New("panic called with nil argument")
 		}
 
 		var str string
@@ -119,6 +125,12 @@ func (r *getRequest) executeHandler() {
 		r.s.errorf("Error handling get request %#v: %s", r.rname, str)
 	}()
 
+	r.callHandler()
+	returned = true
+}
+
+// callHandler calls the get handler.
+func (r *getRequest) callHandler() {
 	h := r.h
 	if h.Get == nil {
 		r.Error(ErrNotFound)
